@@ -6,3 +6,4 @@ open Hera
 #print axioms evalGoP_lines
 #print axioms posAfter_eq
 #print axioms splitLines_get
+#print axioms C17_position_only_next_char
